@@ -136,7 +136,7 @@ class Prop(BaseProp):
             return
         for q, (l, s) in enumerate(zip(loaded, expect)):
             ctx.expect(l.t_start == ts and l.t_end == te, "roundtrip:edges", "train %d edges [%r,%r]" % (q, l.t_start, l.t_end))
-            got = l.spikes.tolist()
+            got = common.tl(l.spikes)
             if not ctx.expect(len(got) == len(s), "roundtrip:spike-count", "train %d: %d spikes saved, %d loaded (sep %r, precision %d): %s" % (q, len(s), len(got), sep, p, common.short(got))):
                 continue
             ctx.expect(got == sorted(got), "roundtrip:not-sorted", "train %d not sorted after loading: %s" % (q, common.short(got)))
@@ -164,10 +164,10 @@ class Prop(BaseProp):
             r2.shuffle(toks)
         ctx.word(("str", sep, len(s), case["shuffle"]), True)
         st = ctx.call(ps.spike_train_from_string, sep.join(toks), [ts, te], sep=sep)
-        ctx.expect(st.spikes.tolist() == sorted(s), "from_string:times", "string %r gives %s, expected %s" % (sep.join(toks)[:200], common.short(st.spikes.tolist()), common.short(sorted(s))))
+        ctx.expect(common.tl(st.spikes) == sorted(s), "from_string:times", "string %r gives %s, expected %s" % (sep.join(toks)[:200], common.short(common.tl(st.spikes)), common.short(sorted(s))))
         ctx.expect(st.t_start == ts and st.t_end == te, "from_string:edges", "edges [%r,%r]" % (st.t_start, st.t_end))
         st2 = ctx.call(ps.spike_train_from_string, sep.join(toks), [ts, te], sep=sep, is_sorted=True)
-        ctx.expect(st2.spikes.tolist() == [float(t) for t in toks], "from_string:is_sorted", "is_sorted=True must keep the listed order")
+        ctx.expect(common.tl(st2.spikes) == [float(t) for t in toks], "from_string:is_sorted", "is_sorted=True must keep the listed order")
 
     def edges(self, case, ctx):
         ps = ctx.ps
@@ -187,7 +187,7 @@ class Prop(BaseProp):
             st = ctx.call(ps.SpikeTrain, np.array(spikes), mk[ek](), _name="SpikeTrain(scalar edge)")
             ctx.expect(st.t_start == 0.0 and st.t_end == e, "scalar-edge", "SpikeTrain(..., %s %r) has edges [%r,%r], expected [0,%r]" % (ek, e, st.t_start, st.t_end, e))
             st = ctx.call(ps.spike_train_from_string, " ".join(repr(t) for t in spikes), mk[ek](), _name="spike_train_from_string(scalar edge)")
-            ctx.expect(st.t_start == 0.0 and st.t_end == e and st.spikes.tolist() == spikes, "scalar-edge", "spike_train_from_string with scalar edge %s" % ek)
+            ctx.expect(st.t_start == 0.0 and st.t_end == e and common.tl(st.spikes) == spikes, "scalar-edge", "spike_train_from_string with scalar edge %s" % ek)
         else:
             pair = {"pair-list": [case["ts"], case["te"]], "pair-tuple": (case["ts"], case["te"]), "pair-array": np.array([case["ts"], case["te"]])}[ek]
             st = ctx.call(ps.SpikeTrain, np.array(case["trains"][0]), pair, _name="SpikeTrain(pair edge)")
@@ -221,7 +221,7 @@ class Prop(BaseProp):
         end = start + c * tb
         for q, (st, row) in enumerate(zip(sts, mat)):
             want = [start + (j + 1) * tb for j, v in enumerate(row) if v]
-            got = st.spikes.tolist()
+            got = common.tl(st.spikes)
             tol = 0.0 if case["dyadic"] else 4 * max(abs(start), abs(end), 1e-300) * 2.0 ** -52
             ok = len(got) == len(want) and all(abs(a - b) <= tol for a, b in zip(got, want))
             ctx.expect(ok, "timeseries:times", "row %d %s with start %r bin %r gives %s, expected %s" % (q, row, start, tb, common.short(got), common.short(want)))
